@@ -71,6 +71,7 @@ class Module:
         self.name, self.path, self.src, self.tree = name, path, src, tree
         self.imports = {}     # local name -> (module, name) inside the package, or ('<ext>', dotted)
         self.consts = {}      # NAME -> ast expr (module-level simple assignments)
+        self.unindexed = set()  # names bound at module level by statements the index does not follow (if / try / for / with / augmented assignment)
         self.classes = {}
         self.funcs = {}
 
@@ -124,8 +125,26 @@ class Program:
                 for t in n.targets:
                     if isinstance(t, ast.Name):
                         m.consts[t.id] = n.value
+                    elif isinstance(t, (ast.Tuple, ast.List)) and all(isinstance(e, ast.Name) for e in t.elts):
+                        # a, b = expr: each name is item i of the value
+                        for i, e in enumerate(t.elts):
+                            sub = ast.Subscript(value=n.value, slice=ast.Constant(value=i), ctx=ast.Load())
+                            ast.copy_location(sub, n)
+                            ast.fix_missing_locations(sub)
+                            m.consts[e.id] = sub
+                    else:
+                        for e in ast.walk(t):
+                            if isinstance(e, ast.Name):
+                                m.unindexed.add(e.id)
             elif isinstance(n, ast.AnnAssign) and isinstance(n.target, ast.Name) and n.value is not None:
                 m.consts[n.target.id] = n.value
+            elif isinstance(n, (ast.If, ast.Try, ast.For, ast.While, ast.With, ast.AugAssign, ast.Delete)):
+                # names bound by module-level control flow are not indexed: looking one up is an analysis error, never a silent guess
+                for e in ast.walk(n):
+                    if isinstance(e, ast.Name) and isinstance(e.ctx, (ast.Store, ast.Del)):
+                        m.unindexed.add(e.id)
+                    elif isinstance(e, (ast.FunctionDef, ast.ClassDef)):
+                        m.unindexed.add(e.name)
         for n in ast.walk(m.tree):
             if isinstance(n, ast.ImportFrom):
                 base = m.name.split('.') if m.name else []
